@@ -295,6 +295,30 @@ def body(chk):
                         if not (same(out[2], ref[0]) and same(out[3], ref[1])):
                             chk.report(site + ":mirror", f"{text}: construct is not the mathematically correct image of the operand", replay)
                         unit_case(opn, None if reflected else dv, dv if reflected else None, out, site + ":unit", replay)
+                # unary minus and a power of a derived operand: the unit of the operand is kept / raised, the construct mirrored
+                out = run(lambda: -d)
+                chk.count(f"hist-neg-{ess}", key=(ess, name, "neg", tuple(L), tuple(R)))
+                replay = {"kind": "oracle", "essence": ess, "expr": f"-({name})", "units": "U[m] V[s] K[kg]", "operand_unit": dv, "observed": out[:2] + out[4:] if out[0] == "ok" else out}
+                if out[0] != "ok":
+                    chk.report(f"UN:{ess}:history:neg", f"-({name}) fails: {out[1]}", replay)
+                else:
+                    ref = num_ref("neg", L, R, 0.0, False)
+                    if not (same(out[2], ref[0]) and same(out[3], ref[1])):
+                        chk.report(f"UN:{ess}:history:neg:mirror", f"-({name}): construct is not the mirror image of the operand", replay)
+                    unit_case("neg", dv, None, out, f"UN:{ess}:history:neg:unit", replay)
+                    # X + (-X) must be dimensionally compatible
+                    out2 = run(lambda: d + (-d))
+                    if out2[0] != "ok" and out2[1].startswith("DimensionalityError"):
+                        chk.report(f"UN:{ess}:history:neg:unit", f"({name}) + (-({name})) is rejected as dimensionally incompatible: {out2[1][:80]}", replay)
+                if L[0] > 0:
+                    out = run(lambda: d ** 2)
+                    chk.count(f"hist-pow-{ess}", key=(ess, name, "pow2", tuple(L), tuple(R)))
+                    replay = {"kind": "oracle", "essence": ess, "expr": f"({name}) ** 2", "units": "U[m] V[s] K[kg]", "operand_unit": dv, "observed": out[:2] + out[4:] if out[0] == "ok" else out}
+                    if out[0] == "ok":
+                        items.append(f"(UPow (2)%Z, (OUN {vec(dv)}), ONum, " + (f"(XOk {vec(out[4])})" if out[4] is not None and all(isinstance(x, int) for x in out[4]) else "XOther") + ")")
+                        flat.append((f"UN:{ess}:history:pow:unit", replay, out))
+                    else:
+                        chk.report(f"UN:{ess}:history:pow", f"({name}) ** 2 fails: {out[1]}", replay)
                 # derived with derived
                 for name2, d2, dv2 in rng.sample(pool, min(3, len(pool))):
                     if dv2 is None:
